@@ -37,7 +37,7 @@ def render_catalog(seeds, operands, small, forms=None, scalars=None, stride=1, e
     return "\n".join(lines) + "\n"
 
 
-def cfg_text(max_lvl, max_dim, acts, emit=True, invariants=("Emit", "ShapeConsistent"), ebound=2000):
+def cfg_text(max_lvl, max_dim, acts, emit=True, invariants=("Emit", "ShapeConsistent", "AnnotTrue"), ebound=2000):
     acts_s = "{" + ", ".join(json.dumps(a) for a in sorted(acts)) + "}"
     inv = "\n".join(f"INVARIANT {i}" for i in invariants)
     return (f"SPECIFICATION Spec\nCONSTANTS\n  MaxLvl = {max_lvl}\n  MaxDim = {max_dim}\n  Acts = {acts_s}\n"
@@ -58,7 +58,7 @@ def run_model(tag, runs, workers=16, timeout=3000):
                 args = ["-simulate", f"num={r['simulate']}", "-depth", str(r["lvl"] + 1),
                         "-seed", str(common.seed() + 17 * i)]
             res = tla.run_tlc("MC_Ops", cfg_text(r["lvl"], r["dim"], r["acts"],
-                                                 invariants=r.get("invariants", ("Emit", "ShapeConsistent")),
+                                                 invariants=r.get("invariants", ("Emit", "ShapeConsistent", "AnnotTrue")),
                                                  ebound=r.get("ebound", 2000)),
                               wd, workers=workers, timeout=timeout, gen_files={"Catalog.tla": cat}, args=args)
             if res.violated or res.error:
